@@ -13,7 +13,7 @@ import os
 
 import yaml
 
-from . import core, configs, docgen, envsim, model, reader
+from . import core, configs, docgen, envsim, model, reader, seams
 from .core import Violation
 from .docgen import A, Q
 from .envsim import EnvSim, SutError
@@ -32,9 +32,13 @@ def base_doc(rng, idx):
     return docgen.gen_doc(rng, big=rng.random() < 0.05), "random"
 
 
-def load_text(text, tag):
+def load_text(text, tag, loader=None):
     import nasim
     path = configs.write_doc(text, tag)
+    if loader is not None:
+        # one ScenarioLoader object kept by the caller and used for every
+        # file
+        return loader.load(path), path
     return nasim.load_scenario(path), path
 
 
@@ -54,7 +58,7 @@ def pad_to(text, n):
     return text + "\n#" + "p" * (need - 2)
 
 
-def load_rewritten(first, second, tag):
+def load_rewritten(first, second, tag, loader=None):
     """Storage fault 'rewritten in place': `first` is written to the path and
     loaded (whatever happens is ignored), then the file is overwritten with
     `second` - same path, same size, same second - and loaded for real."""
@@ -64,14 +68,15 @@ def load_rewritten(first, second, tag):
     first, second = pad_to(first, n), pad_to(second, n)
     path = configs.write_doc(first, tag)
     os.utime(path, (FILE_T0, FILE_T0))
+    load = loader.load if loader is not None else nasim.load_scenario
     try:
-        nasim.load_scenario(path)
+        load(path)
     except Exception:
         pass
     with open(path, "w") as f:
         f.write(second)
     os.utime(path, (FILE_T0 + 0.5, FILE_T0 + 0.5))
-    return nasim.load_scenario(path), path
+    return load(path), path
 
 
 def enlarge(doc):
@@ -195,6 +200,14 @@ def c17_run_one(prop, tier, root, idx, extra):
                                  keep_order=False)
         if v is not None:
             trace["rewrite"] = v["text"]
+    if fx.random() < 0.15:
+        # an environment of a sibling document (same names, possibly listed
+        # in another order) was built and used earlier in the process
+        v = configs.variant_spec({"kind": "yaml", "text": text}, fx, "doc",
+                                 keep_order=False)
+        if v is not None:
+            trace["predecessor"] = {"text": v["text"],
+                                    "seed": fx.randint(0, 2 ** 31 - 1)}
     if fx.random() < 0.2:
         # an earlier load in this process was refused: a sibling of this
         # document (all optional sections present) that breaks one rule of
@@ -228,6 +241,16 @@ def c17_execute(trace, tier, res, gen=False):
     episodes = [] if gen else (trace.get("episodes") or [])
     try:
         cfg = reader.from_yaml_text(text, name="doc")
+        if trace.get("predecessor"):
+            counters.hit("fault.foreign_activity.predecessor_env")
+            pr = core.stream(trace["predecessor"]["seed"], "pred")
+            mt = pr.choice(envsim.MODE_TRIPLES)
+            envsim.play_sibling(
+                {"kind": "yaml", "text": trace["predecessor"]["text"],
+                 "name": "doc"},
+                {"fully_obs": mt[0], "flat_actions": mt[1],
+                 "flat_obs": mt[2]}, pr)
+            seams.collect_now()
         if trace.get("refused_before"):
             counters.hit("fault.earlier_load_refused")
             try:
@@ -793,9 +816,14 @@ def c18_execute(trace, tier, res):
     counters = core.Counters()
     res["trace"] = trace
     res["ops"] = res["steps"] = 0
+    loader = None
+    if core.h64(f"{trace['seed']}|shared-loader") % 2 == 0:
+        from nasim.scenarios import ScenarioLoader
+        loader = ScenarioLoader()
+        counters.hit("fault.loader_instance_reused")
     try:
         try:
-            load_text(trace["base"], "c18base")
+            load_text(trace["base"], "c18base", loader)
         except Exception as e:
             # the base must be valid; if the loader refuses it that is C17's
             # business - no verdict here
@@ -834,15 +862,16 @@ def c18_execute(trace, tier, res):
                 if case.get("after_refused"):
                     counters.hit("fault.earlier_load_refused")
                     try:
-                        load_text(case["after_refused"], "c18big")
+                        load_text(case["after_refused"], "c18big", loader)
                         counters.hit("bigger_broken_document_accepted")
                     except Exception:
                         pass
                 if case.get("rewrite_of_base"):
                     counters.hit("fault.file_rewritten_in_place")
-                    load_rewritten(trace["base"], case["text"], "c18rw")
+                    load_rewritten(trace["base"], case["text"], "c18rw",
+                                   loader)
                 else:
-                    load_text(case["text"], "c18")
+                    load_text(case["text"], "c18", loader)
             except Exception:
                 counters.hit("rejected")
                 continue
